@@ -1144,6 +1144,11 @@ fn rename_clash(prefixing: bool, canonical: &str, mangled: &str, cc: Option<&str
 }
 
 fn probe(name: &str, header: &str, csrc: &str, caller_body: &str, mode: CbMode, root: &Path, st: &mut Stats) -> Option<(Inventory, Vec<(String, String, String)>, RunOut)> {
+    probe_cc(name, header, csrc, caller_body, mode, root, &|_| "C".into(), st)
+}
+
+/// `cc_of`: the calling convention the header gives each function (what the model is told)
+fn probe_cc(name: &str, header: &str, csrc: &str, caller_body: &str, mode: CbMode, root: &Path, cc_of: &dyn Fn(&str) -> String, st: &mut Stats) -> Option<(Inventory, Vec<(String, String, String)>, RunOut)> {
     let dir = root.join(name);
     std::fs::create_dir_all(&dir).unwrap();
     util::write(&dir.join("lib.h"), header);
@@ -1155,7 +1160,7 @@ fn probe(name: &str, header: &str, csrc: &str, caller_body: &str, mode: CbMode, 
     let inventory = inv::inventory(&b).ok()?;
     let log = irdump::parse_log(out.log.as_deref().unwrap_or(""));
     let ir = Ir::new(log.dumps.into_iter().last()?);
-    let pred = check_against_model(name, "elf", &ir, &inventory, mode, &[], false, &|_| "C".into(), &|_| 0, st);
+    let pred = check_against_model(name, "elf", &ir, &inventory, mode, &[], false, cc_of, &|_| 0, st);
     util::write(&dir.join("caller.rs"), &format!("#![allow(warnings)]\ninclude!(\"bindings.rs\");\nfn main() {{ unsafe {{ {caller_body} }} }}\n"));
     let ro = build_and_run(&dir);
     let _ = std::fs::remove_dir_all(&dir);
@@ -1292,7 +1297,7 @@ fn part_c_nested(args: &Args, root: &Path, st: &mut Stats) {
     let mut r = Rng::new(args.seed ^ 0x9E57ED);
     const TYS: &[(&str, &str)] = &[("int", "::std::os::raw::c_int"), ("long", "::std::os::raw::c_long"), ("char", "::std::os::raw::c_char"),
         ("short", "::std::os::raw::c_short"), ("double", "f64"), ("unsigned", "::std::os::raw::c_uint"), ("long long", "::std::os::raw::c_longlong")];
-    let rounds = if args.thorough() { 40 } else { 6 };
+    let rounds = if args.thorough() { 48 } else { 8 };
     for k in 0..rounds {
         // fixed shapes first: outer longer than inner, inner longer than outer, one level empty
         let (np, nq) = match k { 0 => (3, 1), 1 => (1, 2), 2 => (0, 1), 3 => (2, 0), _ => (r.below(5) as usize, r.below(4) as usize) };
@@ -1304,13 +1309,18 @@ fn part_c_nested(args: &Args, root: &Path, st: &mut Stats) {
         let (pl, ql) = (list(&ps, "p", named), list(&qs, "q", named));
         let (pln, qln) = (list(&ps, "p", true), list(&qs, "q", true));
         let n = format!("c04nd{k}");
-        let header = format!("long (*{n}_get({pl}))({ql});\ntypedef long (*(*{n}_td)({pl}))({ql});\nextern {n}_td {n}_ptr;\nstruct {n}_s {{ int tag; long (*(*m)({pl}))({ql}); }};\nstruct {n}_s {n}_mk(void);\nlong {n}_take(long (*(*cb)({pl}))({ql}));\nlong {n}_acc(void);\n");
+        // calling conventions per level: the function taking P (outer) and the returned pointer's function taking Q (inner)
+        let (ms_o, ms_i) = match k { 4 => (false, true), 5 => (true, false), 0..=3 => (false, false), _ => (r.below(4) == 0, r.below(3) == 0) };
+        const MS: &str = "__attribute__((ms_abi)) ";
+        let (ao, ai) = (if ms_o { MS } else { "" }, if ms_i { MS } else { "" });
+        let (rcc_o, rcc_i) = (if ms_o { "win64" } else { "C" }, if ms_i { "win64" } else { "C" });
+        let header = format!("{ao}long ({ai}*{n}_get({pl}))({ql});\ntypedef long ({ai}*({ao}*{n}_td)({pl}))({ql});\nextern {n}_td {n}_ptr;\nstruct {n}_s {{ int tag; long ({ai}*({ao}*m)({pl}))({ql}); }};\nstruct {n}_s {n}_mk(void);\nlong {n}_take(long ({ai}*({ao}*cb)({pl}))({ql}));\nlong {n}_acc(void);\n");
         let wsum = |pre: &str, cnt: usize, base: i64| (0..cnt).map(|i| format!("{} * (long){pre}{i}", i as i64 + base)).collect::<Vec<_>>().join(" + ");
         let psum = if np == 0 { "0".to_string() } else { wsum("p", np, 2) };
         let qsum = if nq == 0 { "0".to_string() } else { wsum("q", nq, 5) };
         let pargs_c = (0..np).map(|i| format!("({}){}", TYS[ps[i]].0, 3 + i)).collect::<Vec<_>>().join(", ");
         let qargs_c = (0..nq).map(|i| format!("({}){}", TYS[qs[i]].0, 11 + i)).collect::<Vec<_>>().join(", ");
-        let csrc = format!("static long acc;\nstatic long {n}_leaf({qln}) {{ return 1000 + {qsum}; }}\nlong (*{n}_get({pln}))({ql}) {{ acc = {psum}; return {n}_leaf; }}\n{n}_td {n}_ptr = {n}_get;\nstruct {n}_s {n}_mk(void) {{ struct {n}_s s; s.tag = 1; s.m = {n}_get; return s; }}\nlong {n}_take(long (*(*cb)({pl}))({ql})) {{ return cb({pargs_c})({qargs_c}); }}\nlong {n}_acc(void) {{ return acc; }}\n");
+        let csrc = format!("static long acc;\nstatic {ai}long {n}_leaf({qln}) {{ return 1000 + {qsum}; }}\n{ao}long ({ai}*{n}_get({pln}))({ql}) {{ acc = {psum}; return {n}_leaf; }}\n_Static_assert(__builtin_types_compatible_p(__typeof__(&{n}_get), {n}_td), \"conventions of the function and of the typedef differ\");\n_Static_assert(__builtin_types_compatible_p(__typeof__(&{n}_leaf), __typeof__({n}_get({pargs_c}))), \"conventions of the leaf and of the returned pointer differ\");\n{n}_td {n}_ptr = {n}_get;\nstruct {n}_s {n}_mk(void) {{ struct {n}_s s; s.tag = 1; s.m = {n}_get; return s; }}\nlong {n}_take(long ({ai}*({ao}*cb)({pl}))({ql})) {{ return cb({pargs_c})({qargs_c}); }}\nlong {n}_acc(void) {{ return acc; }}\n");
         let pv: Vec<i64> = (0..np).map(|i| 3 + i as i64).collect();
         let qv: Vec<i64> = (0..nq).map(|i| 11 + i as i64).collect();
         let pexp: i64 = pv.iter().enumerate().map(|(i, v)| (i as i64 + 2) * v).sum();
@@ -1320,8 +1330,8 @@ fn part_c_nested(args: &Args, root: &Path, st: &mut Stats) {
         let rs_params = |v: &[usize], pre: &str| v.iter().enumerate().map(|(i, t)| format!("{pre}{i}: {}", TYS[*t].1)).collect::<Vec<_>>().join(", ");
         let rs_sum = |pre: &str, cnt: usize, base: i64| if cnt == 0 { "0".to_string() } else { (0..cnt).map(|i| format!("{} * ({pre}{i} as i64)", i as i64 + base)).collect::<Vec<_>>().join(" + ") };
         let body = format!(
-            "unsafe extern \"C\" fn rs_leaf({}) -> ::std::os::raw::c_long {{ (2000 + {}) as _ }}\n\
-             unsafe extern \"C\" fn rs_cb({}) -> ::std::option::Option<unsafe extern \"C\" fn({}) -> ::std::os::raw::c_long> {{ RS_ACC = {}; Some(rs_leaf) }}\n\
+            "unsafe extern \"{rcc_i}\" fn rs_leaf({}) -> ::std::os::raw::c_long {{ (2000 + {}) as _ }}\n\
+             unsafe extern \"{rcc_o}\" fn rs_cb({}) -> ::std::option::Option<unsafe extern \"{rcc_i}\" fn({}) -> ::std::os::raw::c_long> {{ RS_ACC = {}; Some(rs_leaf) }}\n\
              static mut RS_ACC: i64 = 0;\n\
              let a = {n}_get({pa}).unwrap()({qa}); let a2 = {n}_acc();\n\
              let b = {n}_ptr.unwrap()({pa}).unwrap()({qa});\n\
@@ -1331,12 +1341,14 @@ fn part_c_nested(args: &Args, root: &Path, st: &mut Stats) {
             rs_params(&qs, "q"), rs_sum("q", nq, 5), rs_params(&ps, "p"), qs.iter().map(|t| TYS[*t].1).collect::<Vec<_>>().join(", "), rs_sum("p", np, 2));
         let expect = format!("R {qexp} {pexp} {qexp} {qexp} {} {pexp}", qexp + 1000);
         let pname = format!("probe_nested_{k}");
-        if let Some((_inv, _pred, ro)) = probe(&pname, &header, &csrc, &body, CbMode::None, root, st) {
+        let get_name = format!("{n}_get");
+        let cc_of = |f: &str| if f == get_name && ms_o { "win64".to_string() } else { "C".to_string() };
+        if let Some((_inv, _pred, ro)) = probe_cc(&pname, &header, &csrc, &body, CbMode::None, root, &cc_of, st) {
             st.bump("nested_declarator_cases", 1);
             if let Some(e) = &ro.clang_err { st.fail("oracle", "generator-c-invalid", format!("nested declarators: clang rejects the generated C: {}", e.chars().take(600).collect::<String>()), &pname); continue; }
             if ro.stdout.trim() != expect {
                 st.fail("oracle", "nested-declarator", format!("header {header:?}: expected output {expect:?}, got {:?}; rustc/link error: {:?}", ro.stdout.trim(), ro.rustc_err.as_ref().map(|e| e.chars().take(600).collect::<String>())), &pname);
-            } else { st.distinct.insert(format!("probe:nested:p{np}:q{nq}:named{}", named as u8)); }
+            } else { st.distinct.insert(format!("probe:nested:p{np}:q{nq}:named{}:{rcc_o}:{rcc_i}", named as u8)); }
         }
     }
 }
